@@ -3,6 +3,9 @@ import ObiVerif.Lemmas.DemuxRead
 import ObiVerif.Lemmas.DemuxEdit
 import ObiVerif.Lemmas.DemuxDelim
 import ObiVerif.Lemmas.NgsFilter
+import ObiVerif.Lemmas.DemuxRescue
+import ObiVerif.Lemmas.DemuxSym
+import ObiVerif.Lemmas.DemuxAnnot
 /-!
 # C12 — Demultiplexing assigns the declared sample, the exact barcode, on either strand
 
@@ -997,5 +1000,317 @@ theorem no_amplicon_is_flagged (ms : List Marker) (id : String) (seq : Bytes) (h
     (h : amplicons ms seq hits = .ok []) :
     extractMultiBarcode ms id seq hits = .ok [⟨id, seq, [("obimultiplex_error", "No barcode identified")]⟩] := by
   simp [extractMultiBarcode, h, bind, Except.bind, pure, Except.pure]
+
+/-! ## rescue extraction (tag delimiter + tag indels) -/
+
+/-- `lookForRescueTag` on the layout `… o d^sp T d^sp` (`o ≠ d`, the tag `T` free of the delimiter,
+its length within `ind` of the declared length `tl`, `ind ≤ tl`): the observed tag is returned,
+whatever precedes `o` -/
+theorem rescue_scanner_layout (X T : Bytes) (o d : UInt8) (sp : Nat) (tl ind : Int)
+    (hsp : 0 < sp) (hT : T ≠ []) (hd : d ∉ T) (ho : o ≠ d) (hind : 0 ≤ ind) (hit : ind ≤ tl)
+    (ha : (T.length : Int) - tl ≤ ind) (hb : tl - (T.length : Int) ≤ ind) :
+    lookForRescueTag (X ++ [o] ++ List.replicate sp d ++ T ++ List.replicate sp d) d tl (sp : Int) ind
+      = .ok T :=
+  lookForRescueTag_layout X T o d sp tl ind hsp hT hd ho hind hit ha hb
+
+/-- **Built reads with rescue extraction** (generalises `constructed_read_any_tags`): each side of
+the marker is fixed-length, delimited (`SideBuilt`) or **rescue** (`SideRescue`: `0 < indels <
+tag length`, the observed tag — possibly with insertions / deletions, length within `indels` of the
+declared one — sits between two borders of `spacer` delimiters, the outer border being preceded by
+a base that is not the delimiter).  Exactly one amplicon comes out, with the barcode, the primer
+matches and the OBSERVED tags; its identification is `identify mk tagF tagR` (nearest unique
+declared tag under the declared mode: `never_wrong_sample` applies to it). -/
+theorem constructed_read_rescue (ms : List Marker) (n n' : Nat) (mk : Marker)
+    (flankL tagF spF pf bc pr spR tagR flankR : Bytes) (k1 k2 : Int)
+    (hms : ms[n]? = some mk)
+    (hF : SideBuilt mk.fside tagF spF flankL.getLast? ∨ SideRescue mk.fside tagF spF flankL)
+    (hR : SideBuilt mk.rside tagR spR (rc flankR).getLast? ∨ SideRescue mk.rside tagR spR (rc flankR))
+    (hpf : 0 < pf.length) (hbc : 0 < bc.length) (hpr : 0 < pr.length)
+    (halpha : ∀ b ∈ pr ++ tagR, b ∈ alphabet) :
+    let b1 : Int := (flankL.length : Int) + tagF.length + spF.length
+    let e1 : Int := b1 + pf.length
+    let b2 : Int := e1 + bc.length
+    let e2 : Int := b2 + pr.length
+    amplicons ms (builtRead flankL tagF spF pf bc pr spR tagR flankR) (builtHits n n' b1 e1 b2 e2 k1 k2)
+      = .ok [{ marker := n + 1, forward := true, subFrom := e1, subTo := b2, barcode := bc,
+               fmatch := pf, rmatch := pr, ferr := k1, rerr := k2, ftag := tagF, rtag := tagR,
+               ident := identify mk tagF tagR }] := by
+  intro b1 e1 b2 e2
+  have := Demux.constructed_read_rescue ms n n' mk flankL tagF spF pf bc pr spR tagR flankR k1 k2 hms
+    hF hR hpf hbc hpr halpha
+  have hrd : builtRead flankL tagF spF pf bc pr spR tagR flankR =
+      (flankL ++ tagF ++ spF) ++ pf ++ bc ++ rc pr ++ (rc spR ++ rc tagR ++ flankR) := by
+    simp [builtRead, List.append_assoc]
+  rw [hrd]
+  exact this
+
+/-- the reverse-complemented built read, rescue extraction allowed on either side -/
+theorem constructed_read_rc_rescue (ms : List Marker) (n n' : Nat) (mk : Marker)
+    (flankL tagF spF pf bc pr spR tagR flankR : Bytes) (k1 k2 : Int)
+    (hms : ms[n]? = some mk)
+    (hF : SideBuilt mk.fside tagF spF flankL.getLast? ∨ SideRescue mk.fside tagF spF flankL)
+    (hR : SideBuilt mk.rside tagR spR (rc flankR).getLast? ∨ SideRescue mk.rside tagR spR (rc flankR))
+    (hpf : 0 < pf.length) (hbc : 0 < bc.length) (hpr : 0 < pr.length)
+    (halpha : ∀ b ∈ flankL ++ tagF ++ pf ++ bc, b ∈ alphabet) :
+    let b1 : Int := (flankR.length : Int) + tagR.length + spR.length
+    let e1 : Int := b1 + pr.length
+    let b2 : Int := e1 + bc.length
+    let e2 : Int := b2 + pf.length
+    amplicons ms (builtRead (rc flankR) tagR spR pr (rc bc) pf spF tagF (rc flankL))
+        (builtHitsRc n n' b1 e1 b2 e2 k1 k2)
+      = .ok [{ marker := n + 1, forward := false, subFrom := e1, subTo := b2, barcode := bc,
+               fmatch := pf, rmatch := pr, ferr := k1, rerr := k2, ftag := tagF, rtag := tagR,
+               ident := identify mk tagF tagR }] := by
+  intro b1 e1 b2 e2
+  have := Demux.constructed_read_rc_rescue ms n n' mk flankL tagF spF pf bc pr spR tagR flankR k1 k2 hms
+    hF hR hpf hbc hpr halpha
+  have hrd : builtRead (rc flankR) tagR spR pr (rc bc) pf spF tagF (rc flankL) =
+      (rc flankR ++ tagR ++ spR) ++ pr ++ rc bc ++ rc pf ++ (rc spF ++ rc tagF ++ rc flankL) := by
+    simp [builtRead, List.append_assoc]
+  rw [hrd]
+  exact this
+
+/-- **Strand symmetry with rescue extraction**: both rescue extractors look into windows of the same
+width `2·(spacer + tag length)` on their side of the amplicon, so — unlike the plain delimited
+extractors (`delimited_window_asymmetry`) — nothing distinguishes the two strands: the read and its
+reverse complement (mirrored hits) yield the same amplicon, observed tags and identification
+included, direction flipped.  In particular the sample, or the error flag, is the same. -/
+theorem strand_symmetry_rescue (ms : List Marker) (n n' : Nat) (mk : Marker)
+    (flankL tagF spF pf bc pr spR tagR flankR : Bytes) (k1 k2 : Int)
+    (hms : ms[n]? = some mk)
+    (hF : SideBuilt mk.fside tagF spF flankL.getLast? ∨ SideRescue mk.fside tagF spF flankL)
+    (hR : SideBuilt mk.rside tagR spR (rc flankR).getLast? ∨ SideRescue mk.rside tagR spR (rc flankR))
+    (hpf : 0 < pf.length) (hbc : 0 < bc.length) (hpr : 0 < pr.length)
+    (halpha : ∀ b ∈ flankL ++ tagF ++ pf ++ bc ++ pr ++ spR ++ tagR, b ∈ alphabet) :
+    let read := builtRead flankL tagF spF pf bc pr spR tagR flankR
+    let L : Int := read.length
+    let b1 : Int := (flankL.length : Int) + tagF.length + spF.length
+    let e1 : Int := b1 + pf.length
+    let b2 : Int := e1 + bc.length
+    let e2 : Int := b2 + pr.length
+    ∃ a : Amplicon,
+      amplicons ms read (builtHits n n' b1 e1 b2 e2 k1 k2) = .ok [a] ∧
+      amplicons ms (rc read) (builtHitsRc n n' (L - e2) (L - b2) (L - e1) (L - b1) k1 k2)
+        = .ok [{ a with forward := false, subFrom := L - a.subTo, subTo := L - a.subFrom }] ∧
+      a.forward = true ∧ a.barcode = bc ∧ a.ftag = tagF ∧ a.rtag = tagR ∧
+      a.ident = identify mk tagF tagR := by
+  intro read L b1 e1 b2 e2
+  have h1 := constructed_read_rescue ms n n' mk flankL tagF spF pf bc pr spR tagR flankR k1 k2 hms
+    hF hR hpf hbc hpr (fun b hb => halpha b (by
+      simp only [List.mem_append] at hb ⊢; rcases hb with hb | hb <;> simp [hb]))
+  have h2 := constructed_read_rc_rescue ms n n' mk flankL tagF spF pf bc pr spR tagR flankR k1 k2 hms
+    hF hR hpf hbc hpr (fun b hb => halpha b (by
+      simp only [List.mem_append] at hb ⊢; rcases hb with ((hb | hb) | hb) | hb <;> simp [hb]))
+  have hrc := rc_builtRead flankL tagF spF pf bc pr spR tagR flankR (fun b hb => halpha b (by
+      simp only [List.mem_append] at hb ⊢; rcases hb with (hb | hb) | hb <;> simp [hb]))
+  have hlen : L = (flankL.length : Int) + tagF.length + spF.length + pf.length + bc.length + pr.length +
+        spR.length + tagR.length + flankR.length := by
+    simp only [L, read, builtRead, List.length_append, rc_length, Int.natCast_add]
+  refine ⟨_, h1, ?_, rfl, rfl, rfl, rfl, rfl⟩
+  simp only at h2 ⊢
+  rw [hrc]
+  have e1' : L - e2 = (flankR.length : Int) + tagR.length + spR.length := by
+    simp only [hlen, e2, b2, e1, b1]; omega
+  have e2' : L - b2 = (flankR.length : Int) + tagR.length + spR.length + pr.length := by
+    simp only [hlen, b2, e1, b1]; omega
+  have e3' : L - e1 = (flankR.length : Int) + tagR.length + spR.length + pr.length + bc.length := by
+    simp only [hlen, e1, b1]; omega
+  have e4' : L - b1 = (flankR.length : Int) + tagR.length + spR.length + pr.length + bc.length + pf.length := by
+    simp only [hlen, b1]; omega
+  rw [e1', e2', e3', e4']
+  exact h2
+
+/-- the hypotheses are satisfiable: both sides rescue (delimiter `a`, border 2, one indel), forward
+tag read with an insertion (`cggt` for `cgt`), reverse tag with a deletion (`g` for `gt`) -/
+example := strand_symmetry_rescue [exRescueMarker] 0 0 exRescueMarker
+  [116, 97, 97] [99, 103, 103, 116] [97, 97] [97, 99, 103, 116] [99, 99, 99] [116, 116, 103, 97]
+  [97, 97] [103] [116, 116, 103] 0 1
+  rfl (Or.inr (by refine ⟨by decide, by decide, by decide, rfl, by decide, by decide, by decide,
+    by decide, by decide, by decide, [], 116, rfl, by decide⟩))
+  (Or.inr (by refine ⟨by decide, by decide, by decide, rfl, by decide, by decide, by decide,
+    by decide, by decide, by decide, [], 99, by decide, by decide⟩))
+  (by decide) (by decide) (by decide) (by decide)
+
+/-- **Limits of the rescue (exact counterexamples, both strands alike).**  The scanner needs one
+base before the outer border: when the read starts with the border (`a ccc a`, tag length 3,
+border 1, one indel) the tag is lost, with one more base it is found; and an outer run of delimiters
+longer than the border is counted as part of the tag (`t aa ccc a` gives `accc`). -/
+theorem rescue_limits :
+    (lookForRescueTag [97, 99, 99, 99, 97] 97 3 1 1 = .ok [] ∧
+     lookForRescueTag [116, 97, 99, 99, 99, 97] 97 3 1 1 = .ok [99, 99, 99]) ∧
+    lookForRescueTag [116, 97, 97, 99, 99, 99, 97] 97 3 1 1 = .ok [97, 99, 99, 99] :=
+  ⟨rescue_needs_outer_base, rescue_long_border_joins_tag⟩
+
+/-! ## strand symmetry beyond built reads: the class of hit lists on which it holds -/
+
+/-- **The symmetric class.**  `hs` = ALL the hits of the four patterns of every marker on a read of
+length `L` (`mirrorHits L` = the hits on its reverse complement).  If the gating of the two
+complemented searches drops nothing on either strand (`Ungated`: every complemented-reverse hit
+starts after the first forward hit, every complemented-forward hit after the first reverse hit —
+on both strands) and the hits are `Separated` (no two hits start or end at the same position, none
+is nested in another), then the sorted hit list of the reverse complement is the mirror image of the
+sorted hit list of the read, and the state machine extracts the mirrored pairs in the opposite
+order (what each pair yields is `pairing_strand_symmetric` / `emit`). -/
+theorem symmetric_class (L : Int) (hs : List Hits) (markers : List Marker) (seq' : Bytes)
+    (h1 : ∀ h ∈ hs, Ungated h) (h2 : ∀ h ∈ hs, Ungated (mirrorHits L h))
+    (sep : Separated (collect hs 1)) :
+    sortByBegin (collect (hs.map (mirrorHits L)) 1) = mirrorList L (sortByBegin (collect hs 1)) ∧
+    machine markers seq' none (sortByBegin (collect (hs.map (mirrorHits L)) 1)) =
+      runPairs markers seq' (((adjPairs (sortByBegin (collect hs 1))).map (mirrorPair L)).reverse) :=
+  ⟨collect_symmetric L hs h1 h2 sep, machine_symmetric L hs markers seq' h1 h2 sep⟩
+
+/-- **… and the known gating finding is exactly its complement**: for separated hits, the hit
+lists collected by `ExtractMultiBarcode` on the two strands (`gate` = what the gated searches
+return) are mirror images of each other **iff** the gating drops nothing on either strand.  A hit
+dropped on one strand is always collected on the other one (the mirror image of a complemented hit
+is a plain forward / reverse hit, never gated), hence the asymmetry of `gating_breaks_symmetry`. -/
+theorem symmetric_iff_ungated (L : Int) (hs : List Hits)
+    (sep : Separated (collect (hs.map gate) 1)) :
+    sortByBegin (collect ((hs.map (mirrorHits L)).map gate) 1) =
+        mirrorList L (sortByBegin (collect (hs.map gate) 1)) ↔
+      (∀ h ∈ hs, Ungated h) ∧ (∀ h ∈ hs, Ungated (mirrorHits L h)) :=
+  collect_symmetric_iff L hs sep
+
+/-- without the separation hypothesis the "only if" part still holds, even as multisets -/
+theorem gated_hits_break_mirror (L : Int) (hs : List Hits)
+    (p : (collect ((hs.map (mirrorHits L)).map gate) 1).Perm
+      ((collect (hs.map gate) 1).map (mirrorMatch L))) :
+    (∀ h ∈ hs, Ungated h) ∧ (∀ h ∈ hs, Ungated (mirrorHits L h)) :=
+  collect_asymmetric_of_gated L hs p
+
+/-- the read of the known finding lies outside the class: its hits are ungated on the read, gated on
+the reverse complement (no forward hit there: the complemented-reverse hit is dropped) -/
+theorem known_finding_is_gated :
+    let h : Hits := ⟨[(21, 40, 0)], [(246, 268, 0)], [(85, 107, 0)], []⟩
+    Ungated h ∧ (gate (mirrorHits 288 h)).cr = [] ∧ (mirrorHits 288 h).cr ≠ [] ∧
+      ¬ Ungated (mirrorHits 288 h) := by
+  refine ⟨?_, ?_, ?_, ?_⟩
+  · rw [ungated_iff]; decide
+  · decide
+  · decide
+  · rw [ungated_iff]; decide
+
+/-- non-vacuity of `symmetric_class` (test) -/
+example : sortByBegin (collect ([(⟨[(5, 9, 0)], [(20, 24, 1)], [], []⟩ : Hits)].map (mirrorHits 30)) 1) =
+    mirrorList 30 (sortByBegin (collect [⟨[(5, 9, 0)], [(20, 24, 1)], [], []⟩] 1)) := by decide
+
+/-! ## the exact barcode and the full annotation set -/
+
+/-- **Every amplicon returned is read off the read at an adjacent pair of hits**: for any read and
+any hits, each amplicon comes from a forward(+) hit `f` immediately followed by its complementary
+hit `m`; the barcode is exactly the sequence strictly between the two primer matches
+(`Subsequence(f.End, m.Begin)`, reverse-complemented when the pair is in reverse orientation — the
+primers and the tags are never part of it), the two matches are the read at the hits, the error
+counts are those of the hits, the tags are what `TagExtractor` cuts at `f.Begin` / `m.End` and the
+identification is `SampleIdentifier` on them. -/
+theorem amplicon_is_exact (ms : List Marker) (seq : Bytes) (hits : List Hits) (as : List Amplicon)
+    (h : amplicons ms seq hits = .ok as) (a : Amplicon) (ha : a ∈ as) :
+    ∃ f m, (f, m) ∈ adjPairs (sortByBegin (collect hits 1)) ∧ isPair f m = true ∧
+      EmitSpec ms seq f m a := by
+  unfold amplicons at h
+  rw [machine_pairs] at h
+  obtain ⟨p, hp, he⟩ := runPairs_mem ms seq _ as h a ha
+  exact ⟨p.1, p.2, hp, (adjPairs_isPair _ p hp).1, emit_spec ms seq p.1 p.2 a he⟩
+
+/-- **The full annotation set** written on an amplicon, in blocks: the two primers, the two primer
+matches and their error counts, the extracted tags (only those that are not empty), the direction,
+per tagged side the matching mode / distance / proposed tag, then either `obimultiplex_error`
+with its text, or `sample`, `experiment` and the annotation columns of the sheet.  (The rank
+`obimultiplex_amplicon_rank = i/n` is added by `rankAll`.) -/
+theorem annotation_set (mk : Marker) (a : Amplicon) :
+    annotsOf mk a =
+      match a.ident.pcr with
+      | none => baseAnnots mk a ++ [("obimultiplex_error",
+          "Cannot associate sample to the tag pair (" ++ str (proposedOf a.ident.fprop) ++ ":" ++
+            str (proposedOf a.ident.rprop) ++ ")")]
+      | some s => s.annots.foldl (fun acc kv => acc.set kv.1 kv.2)
+          (baseAnnots mk a ++ [("sample", s.name), ("experiment", s.experiment)]) :=
+  annotsOf_blocks mk a
+
+/-- test: the annotation list of the amplicon of `exMarker`'s built read -/
+example : annotsOf exMarker
+    { marker := 1, forward := true, subFrom := 9, subTo := 12, barcode := [99, 99, 99],
+      fmatch := [97, 99, 103, 116], rmatch := [116, 116, 103, 97], ferr := 0, rerr := 1, ftag := [97, 99],
+      rtag := [103, 116], ident := identify exMarker [97, 99] [103, 116] } =
+  [("obimultiplex_forward_primer", "acgt"), ("obimultiplex_reverse_primer", "ttga"),
+   ("obimultiplex_forward_match", "acgt"), ("obimultiplex_reverse_match", "ttga"),
+   ("obimultiplex_forward_error", "0"), ("obimultiplex_reverse_error", "1"),
+   ("obimultiplex_forward_tag", "ac"), ("obimultiplex_reverse_tag", "gt"),
+   ("obimultiplex_direction", "forward"),
+   ("obimultiplex_forward_matching", "hamming"), ("obimultiplex_forward_tag_dist", "0"),
+   ("obimultiplex_forward_proposed_tag", "ac"),
+   ("obimultiplex_reverse_matching", "strict"), ("obimultiplex_reverse_tag_dist", "0"),
+   ("obimultiplex_reverse_proposed_tag", "gt"), ("sample", "s1"), ("experiment", "e")] := by decide
+
+/-! ## obimultiplex: what is written where (`--keep-errors`, `-u`) -/
+
+/-- a record of the worker carries the attribute `obimultiplex_error` iff it is the read without
+amplicon or an amplicon whose tags identify no sample (the sheet defining no annotation column of
+that name) -/
+theorem record_error_flag (ms : List Marker) (id : String) (seq : Bytes) (hits : List Hits)
+    (rs : List Record) (h : extractMultiBarcode ms id seq hits = .ok rs) (r : Record) (hr : r ∈ rs) :
+    (amplicons ms seq hits = .ok [] ∧ r.hasError = true ∧ r.seq = seq) ∨
+    ∃ as a, amplicons ms seq hits = .ok as ∧ a ∈ as ∧ r.seq = a.barcode ∧
+      (NoErrorKey a → r.hasError = a.ident.pcr.isNone) := by
+  unfold extractMultiBarcode at h
+  cases ha : amplicons ms seq hits with
+  | error e => simp [ha, bind, Except.bind] at h
+  | ok as =>
+    simp only [ha, bind, Except.bind, pure, Except.pure] at h
+    by_cases he : as.isEmpty
+    · simp only [he, if_true] at h
+      injection h with h
+      subst h
+      simp only [List.mem_singleton] at hr
+      subst hr
+      left
+      exact ⟨by rw [List.isEmpty_iff.1 he], by simp [Record.hasError], rfl⟩
+    · simp only [he] at h
+      injection h with h
+      subst h
+      obtain ⟨a, haa, h1, h2⟩ := rankAll_mem id ms as.length 0 as r hr
+      right
+      refine ⟨as, a, rfl, haa, h1, ?_⟩
+      intro hk
+      have hx := ha
+      unfold amplicons at hx
+      rw [machine_pairs] at hx
+      obtain ⟨p, _, hpe⟩ := runPairs_mem ms seq _ as hx a haa
+      have sp := emit_spec ms seq p.1 p.2 a hpe
+      obtain ⟨mk, hmk, _, _⟩ := sp.tags
+      rw [← sp.marker] at hmk
+      exact h2 mk hmk hk
+
+/-- **Default output (neither `--keep-errors` nor `-u`) and main output with `-u`**: only records
+without error flag, i.e. only amplicons to which `SampleIdentifier` gave a sample (the safety
+theorems `never_wrong_sample` / `accepted_sheet_never_wrong_sample` say what that means), the
+sequence written being exactly the barcode of `amplicon_is_exact`; reads without amplicon and
+unassigned amplicons are not written there. -/
+theorem main_output_is_assigned (ms : List Marker) (keep : Bool) (id : String) (seq : Bytes) (hits : List Hits)
+    (rs : List Record) (h : extractMultiBarcode ms id seq hits = .ok rs) (r : Record)
+    (hr : r ∈ (route keep true rs).out ∨ r ∈ (route false false rs).out) :
+    ∃ as a, amplicons ms seq hits = .ok as ∧ a ∈ as ∧ r.seq = a.barcode ∧
+      (NoErrorKey a → ∃ s, a.ident.pcr = some s) := by
+  have hne := route_out_no_error keep rs r hr
+  have hmem : r ∈ rs := by
+    rcases hr with hr | hr <;> simp [route, List.mem_filter] at hr <;> exact hr.1
+  rcases record_error_flag ms id seq hits rs h r hmem with ⟨_, he, _⟩ | ⟨as, a, h1, h2, h3, h4⟩
+  · rw [hne] at he; cases he
+  · refine ⟨as, a, h1, h2, h3, ?_⟩
+    intro hk
+    have := h4 hk
+    rw [hne] at this
+    cases hp : a.ident.pcr with
+    | none => simp [hp] at this
+    | some s => exact ⟨s, rfl⟩
+
+/-- **Nothing is lost**: with `--keep-errors` alone every record of the worker is written to the main
+output; with `-u` the records are split between the main output and the file of unidentified reads
+(those, and only those, carrying `obimultiplex_error`) -/
+theorem routing_is_a_partition (keep : Bool) (recs : List Record) :
+    (route true false recs).out = recs ∧
+    ∃ us, (route keep true recs).unidentified = some us ∧ (∀ r ∈ us, r.hasError = true) ∧
+      ((route keep true recs).out ++ us).Perm recs :=
+  ⟨by simp [route], route_partition keep recs⟩
 
 end ObiVerif.Props.C12
